@@ -68,7 +68,14 @@ def cases(tier, seed):
         hd += [("zuko", True, 5, "float64"), ("zuko", True, 8, "float32"), ("zuko", False, 12, "float32"), ("flowjax", False, 8, "float32"), ("zuko", True, 3, "float32")]
     for i, (backend, fm, d, dt) in enumerate(hd):
         out.append({"kind": "highdim", "backend": backend, "fm": fm, "d": d, "dtype": dt, "bt": ["logit", "probit"][i % 2], "affine": True, "data": "centred", "seed": [seed, 33, i]})
+    # a quantity whose whole training set lies within ~1e-7 of zero (SI units), default-width flow, whitening on: the scale the
+    # whitening divides by is then of the order of the float32 machine epsilon
+    tiny = [("zuko", 1), ("flowjax", 1), ("zuko", 2)] if tier == "quick" else [("zuko", 1), ("flowjax", 1), ("zuko", 2), ("flowjax", 2)]
+    for i, (backend, d) in enumerate(tiny):
+        out.append({"backend": backend, "bt": "off", "affine": True, "dtype": "float32", "data": "tiny", "d": d, "seed": [seed, 34, i]})
     for i, c in enumerate(out):
+        if c["data"] == "tiny":
+            continue
         if i % 4 == 1:
             c["bounds"] = "unit"
         if i % 5 == 2 and c.get("kind") != "highdim" and c["affine"]:
@@ -112,6 +119,9 @@ def make_data(g, kind, d, lo, hi):
     cols = []
     for j in range(d):
         w = hi[j] - lo[j]
+        if kind == "tiny":
+            cols.append(g.normal(0.0, float(g.uniform(1.0e-7, 2.5e-7)), n))
+            continue
         if kind == "centred":
             x = g.normal(lo[j] + 0.5 * w, 0.08 * w, n)
         elif kind == "hug":
@@ -136,6 +146,8 @@ def build_flow(case, g, stage_untrained):
         # intervals of width exactly one that do not start at zero (phases, fractions)
         lo = np.array([float(g.choice([-0.5, 1.0, -3.0, 2.0])) for _ in range(d)])
         hi = lo + 1.0
+    if case["data"] == "tiny":
+        lo, hi = np.full(d, -1.0), np.full(d, 1.5)
     params = ["width", "angle"][:d]  # declared order is not alphabetical; the two parameters have different bounds
     pb = {p: [float(lo[j]), float(hi[j])] for j, p in enumerate(params)}
     data = make_data(g, case["data"], d, lo, hi)
@@ -210,7 +222,8 @@ def check_flow(flow, aspire, case, lo, hi, data, stage, where, viol, counters):
         sig_clip = 4 * np.sqrt(max(p_clip, 1.0 / nd) / nd)
         counters["clip_margin_mass_measured"] += 1
     for refine in (1, 2, 3):
-        axes = [axis_nodes(lo[j], hi[j], bounded, cen[j], max(sds[j], 1e-3 * (hi[j] - lo[j])), order, 241 if d == 1 else 57, refine=refine) for j in range(d)]
+        sd_floor = 0.0 if case["data"] == "tiny" else 1e-3
+        axes = [axis_nodes(lo[j], hi[j], bounded, cen[j], max(sds[j], sd_floor * (hi[j] - lo[j])), order, 241 if d == 1 else 57, refine=refine) for j in range(d)]
         if d == 1:
             pts = axes[0][0][:, None]
             wts = axes[0][1]
@@ -366,6 +379,8 @@ def run_case(case):
     g2 = np.random.default_rng(case["seed"] + [99])
     w = hi - lo
     data2 = np.clip(lo + 0.5 * w + (0.03 if case["data"] != "centred" else 0.2) * w * g2.standard_normal((300, case["d"])), lo + 1e-5 * w, hi - 1e-5 * w)
+    if case["data"] == "tiny":
+        data2 = g2.normal(0.0, 4.0e-7, (300, case["d"]))
     if case["backend"] == "zuko":
         flow.fit(data2, n_epochs=1, batch_size=100)
     else:
